@@ -147,21 +147,37 @@ Proof.
   rewrite (crun_no_io_before_deadline tr CStart q eq_refl Hr). reflexivity.
 Qed.
 
+Lemma cphase_eq_DoneOk (p:cphase) : p = CDoneOk \/ p <> CDoneOk.
+Proof. destruct p; (left; reflexivity) || (right; discriminate). Qed.
+
 (* 3 *)
 Theorem client_fault_then_close : forall deadline early_io tr1 tr2 ok,
   client_trace_accepted deadline early_io ok (tr1 ++ HFail :: tr2) = true ->
-  ok = false /\ ends_with_close (tr1 ++ HFail :: tr2) = true.
+  (ok = false /\ ends_with_close (tr1 ++ HFail :: tr2) = true) \/
+  (* the one exception: the operation that failed was a SetDeadline(zero) issued by a proxy
+     dialer, which ignores the error; the deadline is armed again at once *)
+  (crun deadline early_io CStart tr1 = Some CDoneOk /\ exists tr3, tr2 = HSetDL false :: tr3).
 Proof.
   intros dl eio tr1 tr2 ok H. unfold client_trace_accepted in H.
   destruct (crun dl eio CStart (tr1 ++ HFail :: tr2)) as [q|] eqn:Hr; [|discriminate].
-  assert (Hq : q = CClosed).
-  { rewrite crun_app in Hr. destruct (crun dl eio CStart tr1) as [p1|]; [|discriminate].
-    simpl in Hr. destruct (cstep dl eio p1 HFail) as [p2|] eqn:Hs; [|discriminate].
-    assert (p2 = CFaulted) by (destruct p1; simpl in Hs; inversion Hs; reflexivity). subst p2.
-    apply faulted_end in Hr as [->| ->]; [discriminate|reflexivity]. }
-  subst q. split.
-  - destruct ok; [discriminate|reflexivity].
-  - apply (crun_closed_ends_with_close _ _ _ _ Hr). apply app_cons_not_nil.
+  assert (Hleft : q = CClosed -> ok = false /\ ends_with_close (tr1 ++ HFail :: tr2) = true).
+  { intros ->. split; [destruct ok; [discriminate|reflexivity]|].
+    apply (crun_closed_ends_with_close _ _ _ _ Hr). apply app_cons_not_nil. }
+  rewrite crun_app in Hr. destruct (crun dl eio CStart tr1) as [p1|] eqn:H1; [|discriminate].
+  simpl in Hr. destruct (cstep dl eio p1 HFail) as [p2|] eqn:Hs; [|discriminate].
+  destruct (cphase_eq_DoneOk p1) as [-> | Hne].
+  - (* the zeroing SetDeadline failed *)
+    simpl in Hs. inversion Hs; subst p2.
+    destruct tr2 as [|e r]; [simpl in Hr; inversion Hr; subst q; discriminate|].
+    simpl in Hr. destruct e as [ | |[|]|z|z| | ]; simpl in Hr; try discriminate.
+    + (* HWrite *) left. apply Hleft. apply faulted_end in Hr as [-> | ->]; [discriminate|reflexivity].
+    + (* HSetDL true *) left. apply Hleft. apply faulted_end in Hr as [-> | ->]; [discriminate|reflexivity].
+    + (* HSetDL false: ignored and re-armed *) right. split; [reflexivity|]. eexists; reflexivity.
+    + (* HSetWDL *) left. apply Hleft. apply faulted_end in Hr as [-> | ->]; [discriminate|reflexivity].
+    + (* HClose *) left. apply Hleft. eapply closed_stays, Hr.
+    + (* HFail *) left. apply Hleft. apply faulted_end in Hr as [-> | ->]; [discriminate|reflexivity].
+  - assert (p2 = CFaulted) by (destruct p1; simpl in Hs; inversion Hs; try reflexivity; contradiction Hne; reflexivity).
+    subst p2. left. apply Hleft. apply faulted_end in Hr as [-> | ->]; [discriminate|reflexivity].
 Qed.
 
 (* ---------------------------------------------------------------- server automaton *)
